@@ -52,9 +52,9 @@ DET_KINDS = {
 HEAD_KINDS = ["HN", "HA", "HB", "HV"]
 BODY_KINDS = ["BN", "BA", "BB", "BV"]
 DET_ORDER = ["HA", "HN", "HV", "HB", "BA", "BN", "BV", "BB"]
-PROB_KINDS = {"quick": ["N", "D", "P"], "thorough": ["N", "D", "P", "Q"]}
+PROB_KINDS = {"quick": ["N", "D", "P", "M"], "thorough": ["N", "D", "P", "Q", "M"]}
 PROB_KINDS_SIZE4 = ["N", "D", "P"]
-PROB_ORDER = ["D", "N", "P", "Q"]
+PROB_ORDER = ["D", "N", "P", "Q", "M"]
 
 # what each tier enumerates; (size, styles, patterns, queries)
 #   patterns "ab": 4^k (applicable or not for each of a, b); "a": 2^k (call argument a only)
@@ -222,6 +222,8 @@ def prob_clauses(pred, idx, kind):
         return ["%s(%d,a,%s)." % (pred, idx, v)]
     if kind == "P":
         return ["%s(%d,a,%s) :- q(%d)." % (pred, idx, v, idx)]
+    if kind == "M":  # one rule index, two clauses: the rule has two answers with independent conditions
+        return ["%s(%d,a,%s) :- q(%d)." % (pred, idx, v, idx), "%s(%d,a,w%d) :- s(%d)." % (pred, idx, idx, idx)]
     return ["%s(%d,a,%s) :- \\+ q(%d)." % (pred, idx, v, idx)]
 
 
@@ -239,7 +241,7 @@ def ruleset_text(family, indices, kinds, pred="r", tpred="t"):
 
 
 def prob_facts(indices):
-    return "".join("%s::q(%d).\n" % (PROB[i], i) for i in sorted(indices))
+    return "".join("%s::q(%d).\n0.5::s(%d).\n" % (PROB[i], i, i) for i in sorted(indices))
 
 
 def goal_text(variant, arg, pred="r"):
@@ -274,19 +276,21 @@ def expected_det(indices, kinds, variant, arg, pred="r"):
 
 def expected_prob(indices, kinds, queries, pred="r"):
     """{query instance text: probability} without zero entries"""
-    appl = {"N": lambda p: 0.0, "D": lambda p: 1.0, "P": lambda p: p, "Q": lambda p: 1.0 - p}
+    appl = {"N": lambda p: 0.0, "D": lambda p: 1.0, "P": lambda p: p, "Q": lambda p: 1.0 - p,
+            "M": lambda p: 1.0 - (1.0 - p) * 0.5}
     byidx = dict(zip(indices, kinds))
     res = {}
     rest = 1.0
     for i in sorted(indices, key=cmp_to_key(R.compare)):
         a = appl[byidx[i]](PROB[i])
-        p = rest * a
+        answers = [("v", rest * a)] if byidx[i] != "M" else [("v", rest * PROB[i]), ("w", rest * 0.5)]
         rest *= 1.0 - a
-        if p > 0:
-            if "cut1" in queries:
-                res["cut(%s(a,v%d))" % (pred, i)] = p
-            if "cut2" in queries:
-                res["cut(%s(a,v%d),%d)" % (pred, i, i)] = p
+        for val, p in answers:
+            if p > 0:
+                if "cut1" in queries:
+                    res["cut(%s(a,%s%d))" % (pred, val, i)] = p
+                if "cut2" in queries:
+                    res["cut(%s(a,%s%d),%d)" % (pred, val, i, i)] = p
     return res
 
 
@@ -392,7 +396,7 @@ def det_projections(case):
     if case["family"] == "det":
         yield case
         return
-    pos = [i for i, k in enumerate(case["kinds"]) if k in "PQ"]
+    pos = [i for i, k in enumerate(case["kinds"]) if k in "PQM"]
     for n in range(len(pos) + 1):
         for off in itertools.combinations(pos, n):
             kinds = ["HN" if (k == "N" or i in off) else "HA" for i, k in enumerate(case["kinds"])]
